@@ -391,7 +391,30 @@ func c18R5(c *Ctx) {
 		if !ok || b.Op != token.SUB || !isConstIntV(1)(b.Y) {
 			return
 		}
-		if p, isPhi := b.X.(*ssa.Phi); !isPhi || p.Comment != "ignoreChunkTimeCount" {
+		// the count-down, by role: an integer phi that is fed back its own value minus one
+		p, isPhi := b.X.(*ssa.Phi)
+		if !isPhi {
+			return
+		}
+		feeds := false
+		seen := map[*ssa.Phi]bool{}
+		var walk func(q *ssa.Phi, depth int)
+		walk = func(q *ssa.Phi, depth int) {
+			if seen[q] || depth > 6 {
+				return
+			}
+			seen[q] = true
+			for _, e := range q.Edges {
+				if e == ssa.Value(b) {
+					feeds = true
+				}
+				if q2, ok := e.(*ssa.Phi); ok {
+					walk(q2, depth+1)
+				}
+			}
+		}
+		walk(p, 0)
+		if !feeds {
 			return
 		}
 		nSkip++
